@@ -352,3 +352,177 @@ def check_lp3(func_node, loop, lists):
     sets = set(out or set()) | set(lp.continues or set())
     bad = [s for s in sets if s and s != frozenset(lists)]
     return bad, sets
+
+
+# ---- LP1c: stale loop locals ---------------------------------------------------------
+
+class _AssignedFlow(Flow):
+    """One iteration: locals surely assigned so far; uses of loop-only locals that are not surely assigned."""
+
+    def __init__(self, loop_only):
+        self.loop_only = loop_only
+        self.stale = []
+
+    def copy(self, s):
+        return set(s)
+
+    def join(self, a, b):
+        return a & b
+
+    def _uses(self, e, s):
+        for n in ast.walk(e):
+            if isinstance(n, ast.Name) and isinstance(n.ctx, ast.Load) and n.id in self.loop_only and n.id not in s:
+                self.stale.append(n)
+            if isinstance(n, ast.NamedExpr) and isinstance(n.target, ast.Name):
+                s.add(n.target.id)
+        return s
+
+    def on_expr(self, e, s, role):
+        return self._uses(e, s)
+
+    def on_stmt(self, st, s):
+        if isinstance(st, (ast.Assign, ast.AnnAssign)):
+            if st.value is not None:
+                s = self._uses(st.value, s)
+            tg = st.targets if isinstance(st, ast.Assign) else [st.target]
+            s = set(s)
+            for t in tg:
+                for n in ast.walk(t):
+                    if isinstance(n, ast.Name) and isinstance(n.ctx, ast.Store):
+                        s.add(n.id)
+                    elif isinstance(n, ast.Name):
+                        self._uses(n, s)
+            return s
+        if isinstance(st, ast.AugAssign):
+            s = self._uses(st.value, s)
+            if isinstance(st.target, ast.Name):
+                if st.target.id in self.loop_only and st.target.id not in s:
+                    self.stale.append(st.target)
+                s = set(s) | {st.target.id}
+            else:
+                s = self._uses(st.target, s)
+            return s
+        for c in ast.iter_child_nodes(st):
+            if isinstance(c, ast.expr):
+                s = self._uses(c, s)
+        if isinstance(st, (ast.Import, ast.ImportFrom)):
+            s = set(s) | {a.asname or a.name.split('.')[0] for a in st.names}
+        return s
+
+    def on_for_target(self, node, s):
+        s = set(s)
+        for n in ast.walk(node.target):
+            if isinstance(n, ast.Name):
+                s.add(n.id)
+        return s
+
+    def on_with_item(self, item, s):
+        if item.optional_vars is not None:
+            s = set(s)
+            for n in ast.walk(item.optional_vars):
+                if isinstance(n, ast.Name):
+                    s.add(n.id)
+        return s
+
+    def on_except(self, handler, s):
+        if handler.name:
+            s = set(s) | {handler.name}
+        return s
+
+
+def check_lp1c(func_node, loop):
+    """Locals that are assigned only inside the loop and used on a path of the same iteration on which
+    they were not assigned: the value of the previous iteration (another source) is used."""
+    inner = assigned_names(loop.body)
+    # names bound by comprehensions live in their own scope
+    comp = set()
+    for n in ast.walk(loop):
+        if isinstance(n, ast.comprehension):
+            comp |= {x.id for x in ast.walk(n.target) if isinstance(x, ast.Name)}
+    inner -= comp
+    before = set()
+    a = func_node.args
+    for arg in a.posonlyargs + a.args + a.kwonlyargs:
+        before.add(arg.arg)
+    if a.vararg:
+        before.add(a.vararg.arg)
+    if a.kwarg:
+        before.add(a.kwarg.arg)
+    for n in ast.walk(func_node):
+        if isinstance(n, ast.Name) and isinstance(n.ctx, ast.Store) and n.lineno < loop.lineno:
+            before.add(n.id)
+        if isinstance(n, (ast.FunctionDef, ast.ClassDef)) and n is not func_node:
+            before.add(n.name)
+    loop_only = inner - before
+    swallowed = _swallowed_try_names(loop, loop_only)
+    if not loop_only:
+        return swallowed
+    fl = _AssignedFlow(loop_only)
+    fl.returns, fl.raises = [], []
+    ctx = _Ctx()
+    from .flow import _Loop
+    ctx.loops.append(_Loop())
+    start = set()
+    if isinstance(loop, ast.For):
+        start = fl.on_for_target(loop, set())
+    fl.block(loop.body, start, ctx)
+    out = []
+    for n in fl.stale:
+        # `if i == 0: v = first else: v += more` : first-iteration initialisation idiom
+        st = enclosing_stmt(n)
+        p = getattr(st, '_parent', None)
+        if isinstance(st, ast.AugAssign) and isinstance(p, ast.If) and any(b is st for b in p.orelse) \
+                and isinstance(p.test, ast.Compare) and isinstance(p.test.comparators[0], ast.Constant) \
+                and p.test.comparators[0].value == 0:
+            continue
+        out.append(n)
+    return out + swallowed
+
+
+_TERMINATORS = (ast.Continue, ast.Break, ast.Return, ast.Raise)
+
+
+def _swallowed_try_names(loop, loop_only):
+    """`try: v = per_source(...)  except E: pass` followed by a use of v: also with a pre-loop default
+    the value after a swallowed exception is that of the previous iteration."""
+    out = []
+    for tr in ast.walk(loop):
+        if not isinstance(tr, ast.Try):
+            continue
+        blk = None
+        par = getattr(tr, '_parent', None)
+        for fld in ('body', 'orelse', 'finalbody'):
+            b = getattr(par, fld, None)
+            if isinstance(b, list) and any(x is tr for x in b):
+                blk = b
+        if blk is None:
+            continue
+        assigned = {}
+        for st in tr.body:
+            if isinstance(st, ast.Assign) and len(st.targets) == 1:
+                t = st.targets[0]
+                names = [t] if isinstance(t, ast.Name) else ([e for e in t.elts if isinstance(e, ast.Name)]
+                                                            if isinstance(t, (ast.Tuple, ast.List)) else [])
+                reads = {n.id for n in ast.walk(st.value) if isinstance(n, ast.Name)}
+                for nm in names:
+                    if nm.id not in reads and nm.id not in loop_only:
+                        assigned[nm.id] = st
+        if not assigned:
+            continue
+        for h in tr.handlers:
+            if h.body and isinstance(h.body[-1], _TERMINATORS):
+                continue
+            h_assigned = assigned_names(h.body)
+            for nm in assigned:
+                if nm in h_assigned:
+                    continue
+                after = blk[[i for i, x in enumerate(blk) if x is tr][0] + 1:]
+                for st in after:
+                    use = next((n for n in ast.walk(st) if isinstance(n, ast.Name) and n.id == nm
+                                and isinstance(n.ctx, ast.Load)), None)
+                    if use is not None:
+                        out.append(use)
+                        break
+                    if nm in assigned_names([st]):
+                        break
+    return out
